@@ -98,6 +98,15 @@ class Bytes(Shape):
         return SBytes(ln, at, self.mutable)
 
 
+class Any(Shape):
+    """a value nothing is known about; inspecting it makes the path undecided"""
+    def sym(self, ex, name):
+        return Missing('havocked value %s' % name)
+
+    def sym_at(self, ex, name, idx):
+        return Missing('havocked value %s' % name)
+
+
 class Opt(Shape):
     def __init__(self, s):
         self.s = s
@@ -362,7 +371,7 @@ def concretize(ex, v, m, memo=None, depth=0):
         return '<opaque>'
     if isinstance(v, SBytes):
         n = v.length if isinstance(v.length, int) else ev(v.length)
-        n = max(0, min(n, 4096))
+        n = max(0, min(n, 2400))
         saved = ex.collect_facts
         ex.collect_facts = []
         try:
@@ -437,7 +446,7 @@ class Contract(object):
                  loops=None, returns=None, modifies=None, reads=None, setup=None, inline=True,
                  use=(), kwargs=None, bounded=None, note=None, max_paths=None, max_unroll=None,
                  hooks=None, sentinel_of=None, expect_fail=False, call=None, timeout_ms=None,
-                 ghost=None, apply_at_calls=False):
+                 ghost=None, apply_at_calls=False, cases=None, budget_s=None):
         self.target = target
         self.prop = prop
         self.params = params
@@ -464,6 +473,8 @@ class Contract(object):
         self.timeout_ms = timeout_ms
         self.ghost = ghost or {}
         self.apply_at_calls = apply_at_calls
+        self.cases = cases
+        self.budget_s = budget_s
 
 
 REGISTRY = []
@@ -510,16 +521,13 @@ class SpecExec(Exec):
                 if a is True:
                     return self.truth(self.eval(e.args[1]))
                 # evaluate the consequent under the antecedent
-                self.solver.push()
+                mark = self.push_scope()
                 self.solver.add(a.t)
-                npc = len(self.pc)
                 self.pc.append(a.t)
                 try:
                     b = self.truth(self.eval(e.args[1]))
                 finally:
-                    extra = self.pc[npc + 1:]
-                    del self.pc[npc:]
-                    self.solver.pop()
+                    extra = self.pop_scope(mark)[1:]
                     for t in extra:
                         self.solver.add(z3.Implies(a.t, t))
                         self.pc.append(z3.Implies(a.t, t))
@@ -612,6 +620,27 @@ def clause_truth(ex, src, locals_, module, env=None, polarity=None, what='clause
     except PyRaise as e:
         raise Unsupported('%s %r raised %s%r' % (what, src if isinstance(src, str) else ast.unparse(src),
                                                    e.exc.cls.name, tuple(e.exc.fields.get('args', ()))))
+
+
+def seq_conj(ex, clauses, env, mod):
+    """conjunction where each clause is evaluated under the previous ones"""
+    acc = []
+    mark = ex.push_scope()
+    try:
+        for r in clauses:
+            t = clause_truth(ex, r, env, mod, None, None, 'requires')
+            if t is False:
+                return False
+            if t is True:
+                continue
+            if ex.check(t.t) == z3.unsat:
+                return False
+            acc.append(t.t)
+            ex.solver.add(t.t)
+            ex.pc.append(t.t)
+    finally:
+        ex.pop_scope(mark)
+    return mk_bool(z3.And(acc)) if acc else True
 
 
 # ----------------------------------------------------------- annotated loop
@@ -836,6 +865,11 @@ def apply_contract(ex, c, f, args, kwargs):
     for i, r in enumerate(c.requires):
         ex.oblige('%s/call-pre:%s#%d' % (caller, c.name, i), clause_truth(ex, r, env, mod, None, '+'),
                   detail=r)
+    for pname, rd in c.reads.items():
+        lo_src, hi_src = rd[0], rd[1]
+        b = env.get(pname)
+        if isinstance(b, SBytes) and b.watch is not None:
+            b.watch(eval_clause(ex, lo_src, env, mod), eval_clause(ex, hi_src, env, mod))
     old_env = {k: deep_copy(v, {}) for k, v in env.items()}
     for lv, shp in c.modifies.items():
         fr = Frame(None, mod, env, set(), [])
@@ -922,6 +956,8 @@ def verify(world_factory, c, registry_by_name=None):
     ex = SpecExec(world, timeout_ms=c.timeout_ms or 10000,
                   max_paths=c.max_paths or 4000, max_unroll=c.max_unroll or 40)
     res = Result(c)
+    global LAST_EX
+    LAST_EX = ex
     ex.hooks['annotated_loop'] = annotated_loop
     ex.hooks['apply_contract'] = apply_contract
     ex.hooks['current_contract'] = c
@@ -956,6 +992,7 @@ def verify(world_factory, c, registry_by_name=None):
     if isinstance(fn, PropertyVal):
         raw = fn.fget if c.call != 'setter' else fn.fset
     qual = raw.qualname if isinstance(raw, FuncVal) else c.target
+    ex.hooks['target_func'] = raw
     short = c.name
     raises_resolved = []
 
@@ -967,6 +1004,28 @@ def verify(world_factory, c, registry_by_name=None):
         return out
     ex.hooks['concretize'] = conc_hook
     samples = []
+
+    def cases_body():
+        boot = Frame(None, ModuleVal('<boot>', {}), {}, set(), [])
+        ex.frames = [boot]
+        env = {}
+        for pname, shp in c.params.items():
+            env[pname] = (shp if isinstance(shp, Shape) else Const(shp)).sym(ex, pname)
+        mod = raw.module if isinstance(raw, FuncVal) else None
+        for r in c.requires:
+            ex.assume(clause_truth(ex, r, env, mod, None, None, 'requires'))
+        ex.ghost['init_env'] = dict(env)
+        disj = []
+        for cn in c.cases:
+            cc = registry_by_name[cn]
+            disj.append(seq_conj(ex, cc.requires, env, mod))
+            for nm, e in c.ensures:
+                if (nm, e) not in cc.ensures:
+                    raise Unsupported('case %s lacks ensures %s of the summary' % (cn, nm))
+            if not set(cc.raises) <= set(c.raises) or cc.reads != c.reads:
+                raise Unsupported('case %s has a different raises/reads clause than the summary' % cn)
+        ex.oblige('%s/cases-exhaustive' % short, N.vor(ex, disj),
+                  detail='the preconditions of %d case contracts cover the summary precondition' % len(c.cases))
 
     def body():
         boot = Frame(None, ModuleVal('<boot>', {}), {}, set(), [])
@@ -993,12 +1052,15 @@ def verify(world_factory, c, registry_by_name=None):
         ex.ghost['old_env'] = old_env
         ex.ghost['init_env'] = old_env
         # reads-clauses
-        for pname, (lo_src, hi_src) in c.reads.items():
+        for pname, rd in c.reads.items():
+            lo_src, hi_src = rd[0], rd[1]
             b = env[pname]
             lo = eval_clause(ex, lo_src, env, mod)
             hi = eval_clause(ex, hi_src, env, mod)
 
             def watch(a, z, lo=lo, hi=hi, pname=pname):
+                if ex.ghost.get('spec_mode'):
+                    return
                 empty = mk_bool(zint(z) <= zint(a))
                 inside = mk_bool(z3.And(zint(a) >= zint(lo), zint(z) <= zint(hi)))
                 g = N.vor(ex, [empty, inside])
@@ -1065,8 +1127,10 @@ def verify(world_factory, c, registry_by_name=None):
                 except Exception:
                     pass
 
+    if c.budget_s:
+        ex.budget_s = c.budget_s
     try:
-        ex.explore(body)
+        ex.explore(cases_body if c.cases else body)
     except Exception as e:   # checker crash: reported, never a verdict
         import traceback
         res.undecided.append('checker error: %s' % traceback.format_exc()[-1500:])
